@@ -22,7 +22,11 @@ PROP = {'drive': ['Shape'],
          'trailing skipped glyphs (324), contextual nested in contextual (6 parent x 6 child formats x 3 action '
          'orders x match/no-match x marks, context repeated in one sequence and over a 3-call history: 432), '
          'nested lookup with the flags word of the parent and another mark filtering set (72), hand-built bytes '
-         'with extension lookups for every target type incl. extension->extension and mixed (100)',
+         'with extension lookups for every target type incl. extension->extension and mixed (100), two nested lookups '
+         'with one flags word and different mark filtering sets over 3-call histories in both orders (48), '
+         'subtables whose count field is smaller / larger than the coverage table next to it for GSUB 1.2 2.1 3.1 '
+         '4.1, GPOS 1.2 2.1 3.1 4.1 (mark, base) 6.1 (mark1, mark2), contexts 1/2 and chained 1/2, read from bytes '
+         'and applied to all ordered pairs of the covered glyphs, last covered first (128)',
  'partial': ['C07_no_panic is proved in full for every lookup list in the shape the reader delivers '
              '(readerShapedLL = coverage indices inside the indexed arrays, context format 3 and chained context '
              'format 3 with at least one input coverage, no nil pair-adjustment pointer, no unimplemented value '
@@ -50,6 +54,15 @@ PROP = {'drive': ['Shape'],
                            'fresh lists; after repair #11 no two live slices share a backing array'],
  'assumptions': ['the model mirrors the code as repaired for DESIGN 9 #11 #12 #13 #14(a,b) #15 #33; '
                  'corpus/C07/defects.case keeps the inputs that failed before the repairs',
+                 'TIE OF THE HYPOTHESIS TO THE READER: that gtab.Read only delivers lists inside readerShapedLL is NOT a '
+                 'theorem of C07; it is checked on the real reader by the direct stream shape.readsafe (bytes -> '
+                 'gtab.Read -> documented subtable types only -> Apply twice without panic; families: mutated tables, '
+                 'extension lookups incl. extension->extension, count field vs coverage size for every subtable with a '
+                 'pruned coverage) and by the statistic "class of reader-delivered lists". The pruning step itself has '
+                 'its post-condition proved in the C02 reader models (Proofs/TotalGposSub.prune_ok: after pruning every '
+                 'coverage index is below the number of records kept; Proofs/TotalGsubSub.pruneStep_spec; '
+                 'Proofs/TotalChainCtx.prune1_ok / covOk_prune), but no theorem composes these into Subtable.guarded '
+                 'for every reader and those models are themselves tied to the Go readers by correspondence',
                  'readerShapedLL (hypothesis of C07_no_panic): coverage indices inside the indexed arrays '
                  '(established by the reader through cov.Prune), context format 3 and chained context format 3 with '
                  'at least one input coverage (reader rejects 0), no nil *PairAdjust, no value record with an '
